@@ -389,7 +389,7 @@ def extract_part(prop, tier, seed, units_ignored, tag, only=None):
                 if ob:
                     obligations.append(ob)
                 if viol:
-                    violations.append(viol)
+                    violations += viol
                 continue
             info["cmds"].append("verus <extract of %s> --crate-type=lib --output-json --error-format=json" % u["name"])
             info["extract_report"].append({"unit": u["name"], "functions": report,
@@ -410,7 +410,7 @@ def extract_part(prop, tier, seed, units_ignored, tag, only=None):
                 if ob:
                     obligations.append(ob)
                 if viol:
-                    violations.append(viol)
+                    violations += viol
             # vacuity twins, one contracted function at a time: with `ensures false` added the function must FAIL
             try:
                 _t, _r, meta_u = render(sc, u["path"])
